@@ -1,7 +1,7 @@
 (* Property C14 — World state snapshots are isolated and the state hash is canonical.
    Only the property theorems; proofs are in Proofs_WorldState.v.
    Histories h are arbitrary lists of op over arbitrary account ids and keys: balance / storage /
-   contract-flag / state-flag mutations, reads, GetSnapshot, Reset to any earlier snapshot,
+   contract-flag / state-flag / fee-sharing-deposit mutations, reads, GetSnapshot, Reset to any earlier snapshot,
    ClearCache, snapshot Flush, reload from the database (by hash), WorldStateFromSnapshot,
    NewWorldSnapshot.  `init` is the world state over an empty database. *)
 From Goloop Require Import lib.Bytes Model_WorldState Proofs_WorldState.
